@@ -179,8 +179,5 @@ class ResponseCode:
         if given_id in [None, cls.PositiveResponse]:
             return False
 
-        for member in inspect.getmembers(cls):
-            if isinstance(member[1], int):
-                if member[1] == given_id:
-                    return True
-        return False
+        # Every response code other than PositiveResponse is negative, whether or not this class has a name for it
+        return True
